@@ -2114,3 +2114,168 @@ stubmap! {
     stub_map_mut_into_iter_up: true, 3, false;
     stub_map_mut_into_iter_dn: false, 3, false;
 }
+
+// ------------------------------------------------------------------------------------------------ into_cstr (C09), zero-sized twins (C17), extend_from_within on the exclusive vectors (C08)
+/// `BumpString::try_into_cstr`: the C string ends at the FIRST nul byte (byte index, also after multi-byte
+/// characters) or gets a terminator appended; bytes before the nul are kept exactly.
+pub(crate) fn ob_stub_into_cstr<const UP: bool>(pat: [usize; 2], with_nul: bool, refused: bool) {
+    let stub = StubBump::<UP>::new_at(1);
+    let t = sym_text(pat);
+    // the text itself has no nul (a one-byte character may be any ASCII value)
+    let mut z = 0;
+    while z < t.len {
+        kani::assume(t.bytes[z] != 0);
+        z += 1;
+    }
+    let Ok(mut s) = BumpString::try_from_str_in(t.as_str(), &stub) else { return };
+    if with_nul {
+        kani::assert(s.try_push('\0').is_ok() && s.try_push('z').is_ok(), "C08.bump_string.push_not_refused");
+    }
+    let n = pat[0] + pat[1];
+    stub.refuse.set(refused);
+    let r = s.try_into_cstr();
+    stub.refuse.set(false);
+    match r {
+        Ok(c) => {
+            let b = c.to_bytes_with_nul();
+            kani::assert(b.len() == n + 1 && b[n] == 0 && same(&b[..n], t.as_str().as_bytes()), "C09.into_cstr.text_up_to_the_first_nul_plus_terminator");
+            kani::assert(stub.owns(b.as_ptr() as usize, n + 1), "C01.into_cstr.block_is_live");
+        }
+        Err(_) => kani::assert(refused && !with_nul, "C07.into_cstr.error_only_when_the_terminator_needs_memory_that_is_refused"),
+    }
+    kani::cover!(true, "ran");
+}
+macro_rules! stubcstr {
+    ($($name:ident: $up:expr, [$a:expr, $b:expr], $nul:expr, $refused:expr;)*) => {$(
+        #[kani::proof]
+        #[kani::unwind(12)]
+        pub(crate) fn $name() {
+            ob_stub_into_cstr::<$up>([$a, $b], $nul, $refused);
+        }
+    )*};
+}
+stubcstr! {
+    stub_into_cstr_nul_after_multibyte_up: true, [3, 2], true, false;
+    stub_into_cstr_nul_after_multibyte_dn: false, [2, 4], true, true;
+    stub_into_cstr_no_nul_up: true, [1, 3], false, false;
+    stub_into_cstr_no_nul_dn: false, [2, 1], false, false;
+}
+
+/// zero-sized element types with an alignment above the position's: both twins behave alike (no memory, no padding)
+#[kani::proof]
+#[kani::unwind(8)]
+pub(crate) fn stub_twins_zst_slice_fill_with_up() {
+    let mut calls = (0usize, 0usize);
+    ob_stub_twins::<true>(
+        1,
+        |s| {
+            let b = (&*s).try_alloc_slice_fill_with::<[u64; 0]>(3, || {
+                calls.0 += 1;
+                []
+            }).unwrap();
+            let r = (b.as_ptr() as usize + s.base(), b.len());
+            core::mem::forget(b);
+            r
+        },
+        |s| {
+            let b = (&*s).alloc_slice_fill_with::<[u64; 0]>(3, || {
+                calls.1 += 1;
+                []
+            });
+            let r = (b.as_ptr() as usize + s.base(), b.len());
+            core::mem::forget(b);
+            r
+        },
+    );
+    kani::assert(calls == (3, 3), "C17.twins.closure_called_once_per_element");
+}
+#[kani::proof]
+#[kani::unwind(8)]
+pub(crate) fn stub_twins_zst_slice_fill_dn() {
+    ob_stub_twins::<false>(
+        3,
+        |s| {
+            let b = (&*s).try_alloc_slice_fill::<[u32; 0]>(2, []).unwrap();
+            let r = (b.as_ptr() as usize + s.base(), b.len());
+            core::mem::forget(b);
+            r
+        },
+        |s| {
+            let b = (&*s).alloc_slice_fill::<[u32; 0]>(2, []);
+            let r = (b.as_ptr() as usize + s.base(), b.len());
+            core::mem::forget(b);
+            r
+        },
+    );
+}
+#[kani::proof]
+#[kani::unwind(8)]
+pub(crate) fn stub_twins_zst_no_memory() {
+    // neither twin asks the allocator for anything: the stub refuses everything
+    let stub = StubBump::<true>::new_at(1);
+    stub.refuse.set(true);
+    let a = (&stub).try_alloc_slice_fill_with::<[u64; 0]>(3, || []);
+    let b = (&stub).alloc_slice_fill_with::<[u64; 0]>(3, || []);
+    let c = (&stub).alloc_slice_copy::<[u16; 0]>(&[[], []]);
+    kani::assert(a.is_ok() && b.len() == 3 && c.len() == 2 && stub.used() == 1, "C17.zst.no_memory_is_requested_by_either_twin");
+    kani::cover!(true, "ran");
+}
+
+/// `try_extend_from_within_copy` on a FULL exclusive vector (has to move to the newer region): same contents as the
+/// model (a reversed vector prepends the copied range as a whole)
+pub(crate) fn ob_stub_mut_extend_within<const UP: bool, const REV: bool>(mode: u8) {
+    let mut stub = StubBump::<UP>::new_at(56);
+    let probe: *const StubBump<UP> = &stub;
+    let vals: [u16; 4] = kani::any();
+    macro_rules! body {
+        ($v:ident) => {{
+            let mut i = 0;
+            while i < 4 {
+                kani::assert($v.try_push(vals[i]).is_ok(), "C08.mut_vec.push_that_is_not_refused_succeeds");
+                i += 1;
+            }
+            kani::assert($v.len() == $v.capacity(), "harness: the vector is full");
+            let before: [u16; 4] = [$v[0], $v[1], $v[2], $v[3]];
+            unsafe { (*probe).refuse.set(mode == 1) };
+            let ok = $v.try_extend_from_within_copy(1..3).is_ok();
+            unsafe { (*probe).refuse.set(false) };
+            if ok {
+                kani::assert($v.len() == 6, "C08.mut_vec.extend_from_within.length");
+                if REV {
+                    kani::assert($v[0] == before[1] && $v[1] == before[2] && $v[2] == before[0] && $v[5] == before[3], "C08.mut_vec_rev.extend_from_within.prepends_the_range_in_order");
+                } else {
+                    kani::assert($v[4] == before[1] && $v[5] == before[2] && $v[0] == before[0] && $v[3] == before[3], "C08.mut_vec.extend_from_within.appends_the_range_in_order");
+                }
+            } else {
+                kani::assert(mode == 1 && $v.len() == 4 && $v[0] == before[0] && $v[3] == before[3], "C07.mut_vec.extend_from_within.refused_changes_nothing");
+            }
+            core::mem::forget($v);
+            ok
+        }};
+    }
+    let ok = if REV {
+        let mut v = MutBumpVecRev::<u16, _>::new_in(&mut stub);
+        body!(v)
+    } else {
+        let mut v = MutBumpVec::<u16, _>::new_in(&mut stub);
+        body!(v)
+    };
+    kani::cover!(ok == (mode == 0), "served-or-refused");
+}
+macro_rules! stubmew {
+    ($($name:ident: $up:expr, $rev:expr, $mode:expr;)*) => {$(
+        #[kani::proof]
+        #[kani::unwind(10)]
+        pub(crate) fn $name() {
+            ob_stub_mut_extend_within::<$up, $rev>($mode);
+        }
+    )*};
+}
+stubmew! {
+    stub_mut_extend_within_up: true, false, 0;
+    stub_mut_extend_within_dn: false, false, 0;
+    stub_mut_extend_within_refused_up: true, false, 1;
+    stub_mut_rev_extend_within_up: true, true, 0;
+    stub_mut_rev_extend_within_dn: false, true, 0;
+    stub_mut_rev_extend_within_refused_dn: false, true, 1;
+}
